@@ -13,6 +13,12 @@ Clauses added by the parameter-coverage audit:
   C17.tt_qtt.scaled    d = 1..3 at overall scales 2^-600 .. 2^600 with e scaled along, rigorous error budget
                        sum_k (q e + floor ||G_k||) prod_{j != k} ||G_j||; defaults of tt_to_qtt
   C17.ind.forms        lists / tuples / 1-D list / int8..uint64 arrays / NumPy scalars for n and q
+  C17.input_form.convert  input FORMS: tt_to_qtt / qtt_to_tt / core_tt_to_qtt / core_qtt_to_tt on float32 / int64 / int32 / mixed-dtype
+                       cores, Fortran order, non-contiguous views, read-only arrays, tuple of cores (gen.tt_form); e / r / q as np.float64 /
+                       np.float32 / np.int64 / np.int32 / 0-d arrays / float caps; positional, keyword and mixed calls; reference: float64
+                       image of what is passed (matrix_svd converts to float64, so the float64 budget holds for every dtype)
+  C17.ind.array_forms  index arrays Fortran-ordered / non-contiguous / read-only / tuple of tuples; BIT arrays of ind_qtt_to_tt in int8 /
+                       uint8 / uint16 / int32 for q up to 40 (the bits fit the dtype, the result does not); single index; keyword calls
   (C17.ind.large_modes now also q = 20 .. 62 - values beyond int32 and 2^53 - and d = 63 .. 1000 (3000) modes;
    C17.ind.raise also n up to 2^18 +- 1)
 """
@@ -27,7 +33,8 @@ BUDGET = (120, 900)     # wall-clock guard in seconds (quick, thorough)
 BOUNDS = ('index maps exhaustive for q*d <= 10 (quick) / 12 (thorough), sampled + boundary indices for q = 7..62 and d up to 1000 (3000), '
           '10 input forms; conversions d<=3, q<=4, r<=5, 6 (e, cap) settings, scales 2^-600..2^600, defaults; direct core calls r1, r2 <= 4 (8), '
           'q <= 5 (9), 10 (e, cap) settings; arbitrary QTT tensors d*q <= 12 (14); sums of K <= 3 exponentials (exact QTT rank K) with caps '
-          'K..K+2, q <= 5, and q = 9, 10 (7..12) for d = 1, 2')
+          'K..K+2, q <= 5, and q = 9, 10 (7..12) for d = 1, 2; input forms: 15 core forms x 6 number forms x 4 call forms on 4 (7) (d, q), '
+          '12 index-array forms x single / batch on 6 (10) (d, q) with q <= 40 (52)')
 
 
 def _bits(i, q):
@@ -499,6 +506,175 @@ def ind_forms(d, q, seed, form):
     return PASS
 
 
+# ----------------------------------------------------------------------------- input FORMS (f4-forms)
+
+CORE_FORMS = ('f32', 'i64', 'i32', 'imixed', 'mixed', 'mixed1', 'F', 'V', 'ro', 'tuple', 'f32+F', 'i64+V+tuple', 'F+ro', 'mixed+F', 'mixed1+V+tuple')
+
+
+def _cap_form(cap, nform):
+    """(e-form, cap-form, q-form) of the numbers: r is documented as int (tt_to_qtt) / (int, float) (optima_qtt, matrix_svd)."""
+    if nform == 'np32':
+        return np.float32, np.int32(cap), np.int32
+    if nform == 'np64':
+        return np.float64, np.int64(cap), np.int64
+    if nform == '0d':
+        return (lambda x: np.array(float(x))), np.array(int(cap)), (lambda x: np.array(int(x)))
+    if nform == 'rfloat':
+        return float, float(cap), int
+    if nform == 'rf32':
+        return np.float64, np.float32(cap), np.uint8
+    return float, int(cap), int
+
+
+@clause('C17.input_form.convert', funcs=('act_one.tt_to_qtt', 'act_one.qtt_to_tt', 'core.core_tt_to_qtt', 'core.core_qtt_to_tt',
+                                         'svd.matrix_svd'))
+def input_form_convert(d, q, r, seed, form, nform, cap, call):
+    """tt_to_qtt / qtt_to_tt / core_tt_to_qtt / core_qtt_to_tt on tensors passed in another input FORM (gen.tt_form: float32,
+    int64, int32, mixed dtypes between cores, Fortran order, non-contiguous views, read-only arrays, tuple of cores) with e / r / q
+    as NumPy numbers, positional or keyword call.  Reference: the float64 image of what is passed (the unchanged library converts
+    to float64 inside matrix_svd, so the float64 budget of C17.tt_qtt.scaled applies to every dtype).
+    (a) integer-valued TT tensor on [2^q]^d -> QTT: well-formed float cores, bonds between modes kept, inner bonds <= cap,
+        QTT[bits(i)] = TT[i] within sum_k (q e + floor ||G_k||) prod_{j != k} ||G_j|| when the cap cannot bind;
+    (b) an arbitrary QTT tensor (random ranks; first core integer-valued, the others Gaussian for the mixed forms, all
+        integer-valued for the pure float32 / integer forms) -> TT: entry at i = QTT entry at the little-endian bits of i,
+        exactly for integer values; bonds between the modes kept;
+    (c) the same through core_tt_to_qtt / core_qtt_to_tt on the first core / the first q QTT cores.
+    The arguments are left unchanged."""
+    n = 2 ** q
+    ef, capf, qf = _cap_form(cap, nform)
+    toks = form.split('+')
+    ints = toks[0] in ('i64', 'i32', 'imixed', 'f32')
+    # (a) TT -> QTT
+    Y0 = gen.tt([n] * d, r, seed, 'int')
+    Z, Yi = gen.tt_form(Y0, form)
+    A = gen.dense(Yi)
+    nk = [_fro(G) for G in Yi]
+    if min(nk) == 0:
+        return SKIP('a zero core')
+    e0 = 1e-12 * min(nk)
+    snap = gen.snapshot(list(Z))
+    Q = gen.call_form(teneva.tt_to_qtt, ('Y', 'e', 'r'), (Z, ef(e0), capf), (gen.call_form.REQ, 1e-12, 100), call)
+    if gen.snapshot(list(Z)) != snap:
+        return FAIL('tt_to_qtt changed its argument')
+    msg = gen.wf(Q, [2] * (d * q))
+    if msg:
+        return FAIL('qtt not well-formed: ' + msg)
+    if not gen.finite(Q):
+        return FAIL('non-finite QTT cores')
+    for k in range(d * q - 1):
+        bond = Q[k].shape[2]
+        if (k + 1) % q == 0:
+            if bond != Yi[(k + 1) // q - 1].shape[2]:
+                return FAIL(f'bond between modes {k}: {bond} != {Yi[(k + 1) // q - 1].shape[2]}')
+        elif bond > max(1, int(cap)):
+            return FAIL(f'inner bond {k}: {bond} > cap {cap}')
+    binding = int(cap) < 2 ** (q // 2) * r
+    if not binding:
+        lg = [np.log2(x) for x in nk]
+        tol = sum((q * float(np.float32(e0) if nform == 'np32' else e0) * 1.0001 + FLOOR * q * nk[k]) * 2.0 ** (sum(lg) - lg[k]) for k in range(d))
+        err = _fro(_le_merge(gen.dense(Q), d, q) - A)
+        if not err <= tol:
+            return FAIL(f'QTT[bits(i)] != TT[i]: ||.|| = {err:.3e} > {tol:.3e} (||A|| = {_fro(A):.3e})')
+    # (c1) one core directly
+    G = Z[0]
+    L = gen.call_form(teneva.core_tt_to_qtt, ('G', 'e', 'r'), (G, ef(e0), capf), (gen.call_form.REQ, 0., 1.E+12), call)
+    if not isinstance(L, list) or len(L) != q or any(not isinstance(X, np.ndarray) or X.ndim != 3 or X.shape[1] != 2 for X in L):
+        return FAIL('core_tt_to_qtt: not a list of q cores (a, 2, b)')
+    if L[0].shape[0] != 1 or L[-1].shape[2] != Yi[0].shape[2] or any(X.shape[2] > max(1, int(cap)) for X in L[:-1]):
+        return FAIL(f'core_tt_to_qtt: bonds {[X.shape for X in L]} (cap {cap})')
+    if not binding:
+        C = _chain_core(L)
+        H = np.stack([np.reshape(C[0, ..., b], n, order='F') for b in range(Yi[0].shape[2])], axis=-1)[None]
+        if not _fro(H - Yi[0]) <= q * e0 * 1.0001 + FLOOR * q * nk[0]:
+            return FAIL(f'core_tt_to_qtt: chain differs from the core by {_fro(H - Yi[0]):.3e}')
+    # (b) arbitrary QTT -> TT
+    g = gen.rng('C17.form.qtt', d, q, r, seed)
+    rr = [1] + [int(g.integers(1, r + 1)) for _ in range(d * q - 1)] + [1]
+    W0 = gen.tt([2] * (d * q), rr, seed, 'int')
+    if not ints:
+        W0 = [W0[0]] + [X + np.round(g.normal(size=X.shape), 3) for X in W0[1:]]
+    if not ints and toks[0] in ('mixed', 'mixed1'):
+        # dtype pattern int64 / float32 / float64 ...: the first core integer, then alternating float32 / float64 (core by core,
+        # each with the layout tokens of the form)
+        lay = [t for t in toks[1:] if t != 'tuple']
+        Wz, Wi = [], []
+        for k, X in enumerate(W0):
+            dt = ['i64'] if k == 0 else (['f32'] if (k + (toks[0] == 'mixed1')) % 2 else [])
+            Xf, Xi = gen.tt_form([X], '+'.join(dt + lay))
+            Wz.append(Xf[0])
+            Wi.append(Xi[0])
+        Wz = tuple(Wz) if 'tuple' in toks else Wz
+    else:
+        Wz, Wi = gen.tt_form(W0, form)
+    snap = gen.snapshot(list(Wz))
+    T = teneva.qtt_to_tt(Wz, qf(q)) if call in ('pos', 'min') else teneva.qtt_to_tt(Y=Wz, q=qf(q))
+    if gen.snapshot(list(Wz)) != snap:
+        return FAIL('qtt_to_tt changed its argument')
+    if not isinstance(T, list) or len(T) != d or any(not isinstance(X, np.ndarray) or X.ndim != 3 for X in T):
+        return FAIL('qtt_to_tt: not a list of d 3-D cores')
+    if [X.shape[1] for X in T] != [n] * d or T[0].shape[0] != 1 or T[-1].shape[2] != 1:
+        return FAIL(f'qtt_to_tt: shapes {[X.shape for X in T]}')
+    for k in range(d - 1):
+        if T[k].shape[2] != rr[(k + 1) * q] or T[k + 1].shape[0] != rr[(k + 1) * q]:
+            return FAIL(f'TT bond {k}: {T[k].shape[2]} != QTT bond {rr[(k + 1) * q]} between the modes')
+    want = _le_merge(gen.dense(Wi), d, q)
+    got = gen.dense([np.asarray(X, dtype=float) for X in T])
+    if ints:
+        if not np.array_equal(got, want):
+            return FAIL(f'qtt_to_tt: entries differ (exact integer tensor), first at {np.argwhere(got != want)[0].tolist()}: '
+                        f'{got[tuple(np.argwhere(got != want)[0])]!r} vs {want[tuple(np.argwhere(got != want)[0])]!r}')
+    elif not gen.close(got, want, _le_merge(gen.absdense(Wi), d, q), c=64.0 * d * q):
+        return FAIL(f'qtt_to_tt: entries differ by up to {np.abs(got - want).max():.3e}')
+    # (c2) core_qtt_to_tt on the first mode
+    Lq = list(Wz[:q])
+    Hc = teneva.core_qtt_to_tt(Lq)
+    Cw = _chain_core(Wi[:q])
+    Hw = np.stack([np.reshape(Cw[0, ..., b], n, order='F') for b in range(rr[q])], axis=-1)[None]
+    if not isinstance(Hc, np.ndarray) or Hc.shape != Hw.shape:
+        return FAIL(f'core_qtt_to_tt: shape {getattr(Hc, "shape", None)} != {Hw.shape}')
+    sc = float(np.abs(_chain_core([np.abs(X) for X in Wi[:q]])).max())
+    if not (np.array_equal(np.asarray(Hc, dtype=float), Hw) if ints else np.abs(np.asarray(Hc, dtype=float) - Hw).max() <= 64 * EPS * q * max(1e-300, sc)):
+        return FAIL('core_qtt_to_tt differs from the own little-endian contraction of the list')
+    if q == 1 and np.shares_memory(Hc, Lq[0]):
+        return FAIL('core_qtt_to_tt: q = 1 returns a view of its argument')
+    return PASS
+
+
+@clause('C17.ind.array_forms', funcs=('grid.ind_tt_to_qtt', 'grid.ind_qtt_to_tt'))
+def ind_array_forms(d, q, seed, form, single, call):
+    """Index maps on index arrays in further forms (gen.idx_form): Fortran order, non-contiguous views, read-only arrays, tuple
+    of tuples, and - for the BIT arrays of ind_qtt_to_tt, whose entries 0 / 1 fit every dtype although the result 2^q - 1 does
+    not - int8 / uint8 / uint16 / int32 bit arrays for q up to 40; single index (1-D array / tuple) or batch; keyword or
+    positional call, n / q as np.int64.  Same little-endian expansion / inverse, integer results, arguments unchanged."""
+    n = 2 ** q
+    g = gen.rng('C17.aforms', d, q, seed)
+    I = np.stack([np.concatenate([[n - 1, 0, n // 2, max(0, n - 2)], g.integers(0, n, size=6)]) for _ in range(d)], axis=1).astype(np.int64)
+    want = _bits_vec(I, q)
+    small = [t for t in form.split('+') if t in ('u8', 'i8', 'u16', 'i32')]
+    fits = not small or all(n - 1 <= np.iinfo({'u8': np.uint8, 'i8': np.int8, 'u16': np.uint16, 'i32': np.int32}[t]).max for t in small)
+    b = gen.idx_form(want, form)
+    a = gen.idx_form(I, form) if fits else gen.idx_form(I, '+'.join(t for t in form.split('+') if t not in small))
+    if single:
+        a = a[1] if isinstance(a, (np.ndarray, list, tuple)) else a
+        b = b[1]
+        I, want = I[1], want[1]
+    sa, sb = gen.snapshot(a), gen.snapshot(b)
+    if call == 'kw':
+        got = teneva.ind_tt_to_qtt(I=a, n=np.int64(n))
+        back = teneva.ind_qtt_to_tt(I_qtt=b, q=np.int64(q))
+    else:
+        got = teneva.ind_tt_to_qtt(a, n)
+        back = teneva.ind_qtt_to_tt(b, q)
+    if gen.snapshot(a) != sa or gen.snapshot(b) != sb:
+        return FAIL('an index argument was changed')
+    if not isinstance(got, np.ndarray) or got.dtype.kind not in 'iu' or got.shape != want.shape or not np.array_equal(got, want):
+        return FAIL(f'{form}: bit expansion differs ({getattr(got, "dtype", None)}, {np.shape(got)})')
+    if not isinstance(back, np.ndarray) or back.dtype.kind not in 'iu' or back.shape != I.shape \
+            or not np.array_equal(back.astype(object), I.astype(object)):
+        return FAIL(f'{form}: inverse differs: {np.asarray(back).reshape(-1)[:4].tolist()} vs {I.reshape(-1)[:4].tolist()} (dtype {getattr(back, "dtype", None)})')
+    return PASS
+
+
 def cases(tier, seed):
     big = tier == 'thorough'
     lim = 12 if big else 10
@@ -574,6 +750,24 @@ def cases(tier, seed):
                             if d == 1:
                                 mag = mag // 2                    # per-core scale within 2^+-300 (see DOUBTFUL below)
                             yield 'C17.tt_qtt.scaled', dict(d=d, q=q, r=r, kind=kind, seed=d + q + r, mag=mag, erel=erel, cap=cap)
+    # ---- input FORMS (f4-forms)
+    j = 0
+    for d, q in ((1, 3), (2, 2), (2, 1), (3, 2)) + (((1, 5), (2, 3), (3, 1)) if big else ()):
+        for form in CORE_FORMS:
+            for nform in ('py', 'np64', 'np32', '0d', 'rfloat', 'rf32'):
+                j += 1
+                if not big and j % 3:
+                    continue
+                yield 'C17.input_form.convert', dict(d=d, q=q, r=(2, 3)[j % 2], seed=j % 4, form=form, nform=nform,
+                                                     cap=(64, 2, 100, 1)[(j // 3) % 4], call=('pos', 'kw', 'mix:1', 'mix:2')[(j // 3) % 4])
+    j = 0
+    for d, q in ((1, 3), (2, 9), (3, 2), (2, 16), (1, 31), (2, 40)) + (((1, 1), (70, 2), (2, 12), (1, 52)) if big else ()):
+        for form in ('F', 'V', 'ro', 'tuple', 'u8', 'i8', 'u16', 'i32', 'i32+F', 'u8+V', 'i8+ro', 'F+ro'):
+            for single in (False, True):
+                j += 1
+                if single and j % 3 and not big:
+                    continue
+                yield 'C17.ind.array_forms', dict(d=d, q=q, seed=j % 3, form=form, single=single, call=('pos', 'kw')[j % 2])
     g = gen.rng('C17', seed)
     for d in (2, 3):
         for q in (1, 2, 3):
